@@ -1026,6 +1026,8 @@ func (c *Conn) handleBdat(arg string) {
 
 	pipe := c.transfer()
 	if pipe == nil {
+		verifYield("conn.bdat.open")
+
 		var r *io.PipeReader
 		r, pipe = io.Pipe()
 
@@ -1108,6 +1110,8 @@ func (c *Conn) handleBdat(arg string) {
 
 	if last {
 		c.lineLimitReader.setLimit(c.server.MaxLineLength)
+
+		verifYield("conn.bdat.last")
 
 		if !c.startBdat(pipe) {
 			// The connection has been closed, nobody is going to
@@ -1456,6 +1460,8 @@ func (c *Conn) readLine() (string, error) {
 }
 
 func (c *Conn) reset() {
+	verifYield("conn.reset")
+
 	c.locker.Lock()
 	defer c.locker.Unlock()
 
